@@ -3,6 +3,7 @@ package connectors
 import (
 	"context"
 	"fmt"
+	"github.com/mimecast/dtail/internal/vhook"
 	"io"
 	"strconv"
 	"strings"
@@ -197,6 +198,7 @@ func (c *ServerConnection) handle(ctx context.Context, cancel context.CancelFunc
 		if err := c.handler.SendMessage(command); err != nil {
 			dlog.Client.Debug(err)
 		}
+		vhook.Point("cli.cmd.sent", c.server, command)
 	}
 
 	if !c.throttlingDone {
